@@ -344,3 +344,110 @@ func (d *Downloader) VerifBusyWithoutRequest() []string {
 	sort.Strings(out)
 	return out
 }
+
+// VerifBodyPeer is the body-fetch view of one registered peer (observation only).
+type VerifBodyPeer struct {
+	ID         string
+	Busy       bool    // blockIdle == 1 (the body fetcher offers work only to peers with blockIdle == 0)
+	HasRequest bool    // blockPendPool holds a request of this peer
+	Requested  int     // number of headers of that request not yet delivered
+	Assignable int     // queued body tasks the peer is not known to lack (ReserveBodies would hand these out)
+	Throughput float64 // blockThroughput
+}
+
+// VerifBodySchedSnapshot is everything the next scheduling decision of the body fetcher
+// (fetchParts for "bodies") depends on, read under q.lock. Nothing is modified: the task queue is
+// drained and refilled with the same (item, priority) pairs as in VerifPools.
+type VerifBodySchedSnapshot struct {
+	Queued        int             // size of blockTaskQueue
+	QueuedNumbers []uint64        // block numbers of the queued tasks, ascending
+	InFlight      int             // requests in blockPendPool (of registered or unregistered peers)
+	InFlightPeers []string        // their owners, sorted
+	Throttled     bool            // what ShouldThrottleBlocks would answer
+	ChanLen       int             // body packets waiting in bodyCh
+	Synchronising bool            // a Synchronise call is active
+	Cancelled     bool            // ... but its cancel channel is closed already (the call is winding down)
+	Peers         []VerifBodyPeer // registered peers, sorted by id
+}
+
+// VerifBodySched returns a VerifBodySchedSnapshot (observation only).
+func (d *Downloader) VerifBodySched() *VerifBodySchedSnapshot {
+	peers := d.peers.AllPeers()
+	sort.Slice(peers, func(i, j int) bool { return peers[i].id < peers[j].id })
+
+	cancelled := true
+	d.cancelLock.RLock()
+	if d.cancelCh != nil {
+		select {
+		case <-d.cancelCh:
+		default:
+			cancelled = false
+		}
+	}
+	d.cancelLock.RUnlock()
+
+	q := d.queue
+	q.lock.Lock()
+	defer q.lock.Unlock()
+
+	s := &VerifBodySchedSnapshot{
+		InFlight:      len(q.blockPendPool),
+		Throttled:     q.resultSlots(q.blockPendPool, q.blockDonePool) <= 0,
+		ChanLen:       len(d.bodyCh),
+		Synchronising: atomic.LoadInt32(&d.synchronising) == 1,
+		Cancelled:     cancelled,
+	}
+	for id := range q.blockPendPool {
+		s.InFlightPeers = append(s.InFlightPeers, id)
+	}
+	sort.Strings(s.InFlightPeers)
+
+	type pe struct {
+		item interface{}
+		prio int64
+	}
+	var (
+		tmp   []pe
+		tasks []*types.Header
+	)
+	for !q.blockTaskQueue.Empty() {
+		it, pr := q.blockTaskQueue.Pop()
+		tmp = append(tmp, pe{it, pr})
+		tasks = append(tasks, it.(*types.Header))
+	}
+	for _, e := range tmp {
+		q.blockTaskQueue.Push(e.item, e.prio)
+	}
+	s.Queued = len(tasks)
+	for _, h := range tasks {
+		s.QueuedNumbers = append(s.QueuedNumbers, h.Number.Uint64())
+	}
+	sort.Slice(s.QueuedNumbers, func(i, j int) bool { return s.QueuedNumbers[i] < s.QueuedNumbers[j] })
+
+	for _, p := range peers {
+		bp := VerifBodyPeer{ID: p.id, Busy: atomic.LoadInt32(&p.blockIdle) == 1}
+		if r, ok := q.blockPendPool[p.id]; ok {
+			bp.HasRequest = true
+			for _, h := range r.Headers {
+				if h != nil {
+					bp.Requested++
+				}
+			}
+		}
+		for _, h := range tasks {
+			if !p.Lacks(h.Hash()) {
+				bp.Assignable++
+			}
+		}
+		p.lock.RLock()
+		bp.Throughput = p.blockThroughput
+		p.lock.RUnlock()
+		s.Peers = append(s.Peers, bp)
+	}
+	return s
+}
+
+// VerifPools is VerifQueue.VerifPools for the downloader's own queue (observation only).
+func (d *Downloader) VerifPools() *VerifPoolsSnapshot {
+	return (&VerifQueue{q: d.queue}).VerifPools()
+}
